@@ -7,7 +7,7 @@ from .seqreplay import replay_history
 
 class C04Spec(ModelSpec):
     prop = "C04"
-    pids = ("p", "xp", "r")  # 'p' is a suffix of 'xp'
+    pids = ("p", "xp", "r\u00e9")  # 'p' is a suffix of 'xp'; the third pid is not ASCII (bytes != characters)
     api_probe = True
 
     def __init__(self, tier):
@@ -16,13 +16,13 @@ class C04Spec(ModelSpec):
         ops = []
         for pid in self.pids:
             ops += [("store", pid, "A", None), ("tag", pid, "A"), ("delete", pid)]
-        ops += [("store", "r", "B", None), ("tag", "r", "B"),
+        ops += [("store", "r\u00e9", "B", None), ("tag", "r\u00e9", "B"),
                 ("dii", "A", "badsize"), ("dii", "A", "badck"), ("dii", "A", "badboth"),
                 ("dii", "B", "badsize"), ("dii", "B", "badck"), ("dii", "A", "badck:sha224+size"),
                 ("store", "p", "A", "badck:sha256"), ("store", "xp", "A", "badsize"), ("store", "xp", "A", "badck:sha3_256"),
                 ("store_nopid", "A"),
                 # the same digest spelled in upper case is a different cid string: it must not alias the object
-                ("tag", "r", "A^"), ("dii", "A^", "badsize"),
+                ("tag", "r\u00e9", "A^"), ("dii", "A^", "badsize"),
                 ("store_meta", "p", None, "v1"), ("delete_meta", "p", None), ("delete_meta", "p", "c")]
         self.ops = ops
         self.formats = ("c",)
